@@ -2,7 +2,7 @@
    Only the property theorems, each closed by [exact] and followed by Print Assumptions. *)
 From Coq Require Import List ZArith.
 From MirV Require Import C08.CLayout C08.SysVLayout C08.CClassify C08.SysVClassify C08.StepProofs
-  C08.LayoutProofs C08.ClassifyProofs.
+  C08.LayoutProofs C08.ClassifyProofs C08.DisjointProofs.
 Import ListNotations.
 Local Open Scope Z_scope.
 
@@ -50,6 +50,16 @@ Example c08_example_layout :
   = (48, 16, [(0, -1, 1); (0, 8, 3); (4, -1, 2); (8, 0, 33); (13, -1, 1);
               (16, -1, 16); (16, -1, 4); (16, -1, 16); (32, -1, 3); (36, -1, 4)]).
 Proof. vm_compute. reflexivity. Qed.
+
+(* In c2mir's own layout of any well-formed struct the members (bit-fields by their bits, the others
+   by their bytes; zero-width bit-fields and a trailing flexible array occupy nothing) lie one after
+   the other in declaration order, pairwise disjoint, inside [0, 8 * sizeof). *)
+Theorem layout_members_disjoint_in_bounds : forall ms,
+  wf_ty (TAgg false ms) = true ->
+  chain 0 (8 * c2m_sz (TAgg false ms))
+        (ranges c2m_sz ms (mems (c2m_layout (TAgg false ms)))).
+Proof. exact layout_members_disjoint_in_bounds_lemma. Qed.
+Print Assumptions layout_members_disjoint_in_bounds.
 
 (* ------------------------------------------------------------------ classification *)
 
